@@ -237,3 +237,52 @@ Definition section_units (us : list unit_spec) : list cu := units_from 0 us.
 Definition cu_contains (c : cu) (r : Z) : bool := (cu_offset c <=? r) && (r <? cu_offset c + cu_size c).
 Definition containing_spec (cus : list cu) (r : Z) : option cu := find (fun c => cu_contains c r) cus.
 Definition at_spec (cus : list cu) (o : Z) : option cu := find (fun c => cu_offset c =? o) cus.
+
+(* ====================================================================== queries on one
+   DWARFInfo object and their stateless answers.  D is the type of DIE objects; DIE
+   construction itself is property C04 and enters as the parameter [parse_die]. *)
+Inductive di_op := OpContaining (refaddr : Z) | OpAt (offset : Z) | OpDie (cu_ofs die_ofs : Z).
+Inductive di_answer (D : Type) := ACU (r : res cu) | ADIE (r : res D).
+Arguments ACU {D} r.
+Arguments ADIE {D} r.
+
+Definition in_section (size x : Z) : bool := (0 <=? x) && (x <? size).
+Definition res_of_opt {A} (e : err) (o : option A) : res A :=
+  match o with Some a => Ok a | None => Err e end.
+
+(* the entry at absolute offset die_ofs of the unit starting at cu_ofs; it must lie in the
+   unit's DIE area [cu_die_offset, cu_offset + size); the unit's first DIE is built first *)
+Definition die_spec {D} (parse_die : cu -> Z -> res D) (cus : list cu) (size cu_ofs die_ofs : Z) : res D :=
+  if negb (in_section size cu_ofs) then Err EDwarf else
+  match at_spec cus cu_ofs with
+  | None => Err EParse          (* not a unit start: outside valid_op, unspecified *)
+  | Some u =>
+      if (cu_die_offset u <=? die_ofs) && (die_ofs <? cu_offset u + cu_size u) then
+        match parse_die u (cu_die_offset u) with
+        | Err e => Err e
+        | Ok _ => parse_die u die_ofs
+        end
+      else Err EDwarf
+  end.
+
+Definition answer_spec {D} (parse_die : cu -> Z -> res D) (cus : list cu) (size : Z) (o : di_op)
+  : di_answer D :=
+  match o with
+  | OpContaining r =>
+      ACU (if negb (in_section size r) then Err EDwarf
+           else res_of_opt (EPy "ValueError") (containing_spec cus r))
+  | OpAt off =>
+      ACU (if negb (in_section size off) then Err EDwarf
+           else res_of_opt EParse (at_spec cus off))   (* None: outside valid_op, unspecified *)
+  | OpDie cu_ofs die_ofs => ADIE (die_spec parse_die cus size cu_ofs die_ofs)
+  end.
+
+(* get_CU_at "does no validation of the offset": offset-exact queries are in the domain
+   only at offsets where a unit starts *)
+Definition is_unit_start (cus : list cu) (o : Z) : bool := existsb (fun c => cu_offset c =? o) cus.
+Definition valid_op (cus : list cu) (o : di_op) : bool :=
+  match o with
+  | OpContaining _ => true
+  | OpAt off => is_unit_start cus off
+  | OpDie cu_ofs _ => is_unit_start cus cu_ofs
+  end.
